@@ -33,6 +33,8 @@ pub enum Case {
     Twin { what: String, idx: usize },
     /// one simulation / construction run inside rayon pools of 1..16 threads: output must not depend on the pool
     PoolSize { what: String },
+    /// subject `b` run right after subject `a` on the same thread must give what it gives on a fresh thread
+    History { a: usize, b: usize },
 }
 
 /// element kinds: 0 short ok conv, 1 long ok BEL, 2 fails at step 1 (conv), 3 fails at step 4 (BEL),
@@ -628,6 +630,61 @@ pub fn pool_size(what: &str, reps: usize) -> (Vec<(String, String)>, u64) {
     (f, n)
 }
 
+// ------------------------------------------------------------------------------------------------ part 5
+pub const N_HISTORY_SUBJECTS: usize = 7;
+/// a small catalogue of different simulations / constructions; several set-speed runs on routes whose link extents
+/// overlap differently (one 10 km link; 300 m + 5 km; 1.2 km + 0.9 km; the reverse direction)
+fn history_subject(k: usize) -> Result<String, String> {
+    let ss = |lens: &[f64], route: &[usize], n: usize| -> Result<String, String> {
+        let net = build_topology(&line_topology(lens, 15.0), true, SetStyle::Map);
+        let spec = TrainSpec { n_loaded: 7, n_empty: 3, davis: true, mass_override: None, length_override: None, consist: 2, cd_vec: false };
+        let b = builder(&spec, None, Some(InitTrainState::new(Some(0.0 * uc::S), None, Some(6.0 * uc::MPS))), Some(1));
+        let time: Vec<f64> = (0..=n).map(|x| x as f64).collect();
+        let speed: Vec<f64> = (0..=n).map(|i| 6.0 + 0.1 * i as f64).collect();
+        let r: Vec<_> = route.iter().map(|i| lidx(*i)).collect();
+        let mut sim = b.make_set_speed_train_sim(&net, &r, SpeedTrace::new(time, speed, None), Some(1)).map_err(|e| format!("{e:#}"))?;
+        sim.walk().map_err(|e| format!("{e:#}"))?;
+        serde_json::to_string(&sim).map_err(|e| e.to_string())
+    };
+    match k {
+        0 => ss(&[10_000.0], &[1], 30),
+        1 => ss(&[300.0, 5000.0], &[1, 2], 40),
+        2 => ss(&[1200.0, 900.0], &[1, 2], 60),
+        3 => ss(&[1200.0, 900.0], &[4, 3], 60),
+        4 => {
+            let cs = crate::props::speedlimit_lab::cases(Tier::Quick);
+            let c = cs.iter().find(|c| c.link_len.len() == 3).ok_or("no chain case")?;
+            let r = crate::props::speedlimit_lab::execute(c, "C12");
+            Ok(format!("{}:{}:{}", r.outcome, r.steps, r.checks))
+        }
+        5 => pool_subject("consist-7-units"),
+        _ => pool_subject("est-times"),
+    }
+}
+
+pub fn history_pair(a: usize, b: usize) -> Vec<(String, String)> {
+    let fresh = std::thread::spawn(move || guarded(|| history_subject(b))).join().unwrap_or(Err("thread".into()));
+    let after = std::thread::spawn(move || {
+        let _ = guarded(|| history_subject(a));
+        guarded(|| history_subject(b))
+    })
+    .join()
+    .unwrap_or(Err("thread".into()));
+    match (fresh, after) {
+        (Ok(Ok(x)), Ok(Ok(y))) => {
+            if x != y {
+                let pos = x.bytes().zip(y.bytes()).position(|(p, q)| p != q).unwrap_or(0);
+                let lo = pos.saturating_sub(50);
+                vec![("output-depends-on-what-ran-before-on-the-thread@history".into(), format!("subject {b} after subject {a} differs from subject {b} on a fresh thread at byte {pos}: ...{} vs ...{}", &y[lo..(pos + 30).min(y.len())], &x[lo..(pos + 30).min(x.len())]))]
+            } else {
+                vec![]
+            }
+        }
+        (Ok(Ok(_)), other) => vec![("outcome-depends-on-what-ran-before-on-the-thread@history".into(), format!("subject {b} after subject {a}: {:?}", other.map(|r| r.map(|s| s.len()))))],
+        (f, _) => vec![("subject-failed@harness".into(), format!("subject {b} on a fresh thread: {:?}", f.map(|r| r.map(|s| s.len()))))],
+    }
+}
+
 pub struct C18;
 
 fn kinds_alphabet(tier: Tier) -> Vec<u8> {
@@ -717,6 +774,10 @@ pub fn run_case(c: &Case, tier: Tier) -> (Vec<(String, String)>, u64, u64, u64, 
             let (f, n) = pool_size(what, if tier.is_thorough() { 12 } else { 3 });
             (f, n, n, n, format!("pool-size:{what}"))
         }
+        Case::History { a, b } => {
+            let f = history_pair(*a, *b);
+            (f, 2, 3, 1, "history-pair".to_string())
+        }
     }
 }
 
@@ -759,6 +820,11 @@ pub fn cases(tier: Tier) -> Vec<Case> {
     for what in ["consist-7-units", "set-speed-train", "est-times", "dispatch"] {
         v.push(Case::PoolSize { what: what.into() });
     }
+    for a in 0..N_HISTORY_SUBJECTS {
+        for b in 0..N_HISTORY_SUBJECTS {
+            v.push(Case::History { a, b });
+        }
+    }
     let n_twin = if tier.is_thorough() { 24 } else { 6 };
     for what in ["est-times", "dispatch", "speed-limited"] {
         for i in 0..n_twin {
@@ -773,7 +839,7 @@ impl Prop for C18 {
         "C18"
     }
     fn rule(&self, tier: Tier) -> String {
-        format!("Part 1 (decides): the only concurrent seam, LocomotiveSimulationVec::walk(true) = rayon par_iter_mut().try_for_each(walk), is explored through rayon's contract (each element visited at most once; after an error no new element starts; started ones finish): one scheduler thread per element sharing one flag, element bodies = the REAL LocomotiveSimulation::walk. shuttle check_dfs (unbounded DFS, every interleaving) for EVERY batch (quick tier: every multiset) of N <= 3 elements over {} element kinds (ok/failing at step 1/failing later x conv/BEL); for N = 4 (every batch over 4 kinds{}) and three N = 5 batches the same contract is enumerated explicitly over its 2N events ((2N)!/2^N interleavings); the two engines must produce the same outcome set for every N <= 3 batch. states = schedules. Binding: the real walk(true) runs inside rayon pools of 1..16 threads (four mixed batches and 14 seven-element batches with exactly one failing element at every position, where the element the error names does not depend on timing) ({} repetitions each) and every observed outcome must be a member of the explored outcome set; walk(false) must equal the element-wise serial reference. Part 2 (decides): for Link.speed_sets and LocationMap with 3 keys and TrainConfig.n_cars_by_type with 4 keys (car masses chosen so that f64 summation is order-sensitive), map instances are created until all 3! / 4! iteration orders are realised and the consuming pipeline must give identical outputs for each. Part 4 (decides for the pool sizes stated; work-stealing order inside one pool size is repeated, not controlled): a ConsistSimulation over seven conventional units whose fuel powers sum order-sensitively (self-checked), a set-speed train run, an estimated-time construction and a three-train dispatch run inside rayon pools of 1..16 threads ({} repetitions each) and in the default pool; every serialized output must equal the one from a pool of 1 thread byte for byte -- today none of them contains parallel code, the part exists so that parallelism introduced into them is measured against the serial result. Part 3 (sampled tripwire, not a verdict): {} scenarios of est-time construction, dispatch and speed-limited simulation run twice in fresh threads and compared byte for byte. distinct_nontrivial = distinct (part, batch size, number of outcomes / orders) signatures.", kinds_alphabet(tier).len(), if tier.is_thorough() { "" } else { ", every 8th in the quick tier" }, if tier.is_thorough() { 20 } else { 6 }, if tier.is_thorough() { 12 } else { 3 }, if tier.is_thorough() { 72 } else { 18 })
+        format!("Part 1 (decides): the only concurrent seam, LocomotiveSimulationVec::walk(true) = rayon par_iter_mut().try_for_each(walk), is explored through rayon's contract (each element visited at most once; after an error no new element starts; started ones finish): one scheduler thread per element sharing one flag, element bodies = the REAL LocomotiveSimulation::walk. shuttle check_dfs (unbounded DFS, every interleaving) for EVERY batch (quick tier: every multiset) of N <= 3 elements over {} element kinds (ok/failing at step 1/failing later x conv/BEL); for N = 4 (every batch over 4 kinds{}) and three N = 5 batches the same contract is enumerated explicitly over its 2N events ((2N)!/2^N interleavings); the two engines must produce the same outcome set for every N <= 3 batch. states = schedules. Binding: the real walk(true) runs inside rayon pools of 1..16 threads (four mixed batches and 14 seven-element batches with exactly one failing element at every position, where the element the error names does not depend on timing) ({} repetitions each) and every observed outcome must be a member of the explored outcome set; walk(false) must equal the element-wise serial reference. Part 2 (decides): for Link.speed_sets and LocationMap with 3 keys and TrainConfig.n_cars_by_type with 4 keys (car masses chosen so that f64 summation is order-sensitive), map instances are created until all 3! / 4! iteration orders are realised and the consuming pipeline must give identical outputs for each. Part 4 (decides for the pool sizes stated; work-stealing order inside one pool size is repeated, not controlled): a ConsistSimulation over seven conventional units whose fuel powers sum order-sensitively (self-checked), a set-speed train run, an estimated-time construction and a three-train dispatch run inside rayon pools of 1..16 threads ({} repetitions each) and in the default pool; every serialized output must equal the one from a pool of 1 thread byte for byte -- today none of them contains parallel code, the part exists so that parallelism introduced into them is measured against the serial result. Part 5 (decides): EVERY ordered pair (A, B) from a catalogue of 7 different simulations / constructions (four set-speed runs on routes whose link extents overlap differently, a speed-limited run, the consist run, an est-time construction): B run right after A on one thread must be byte-identical to B on a fresh thread -- state surviving between runs (statics, thread-locals, caches keyed too coarsely) shows as a difference. Part 3 (sampled tripwire, not a verdict): {} scenarios of est-time construction, dispatch and speed-limited simulation run twice in fresh threads and compared byte for byte. distinct_nontrivial = distinct (part, batch size, number of outcomes / orders) signatures.", kinds_alphabet(tier).len(), if tier.is_thorough() { "" } else { ", every 8th in the quick tier" }, if tier.is_thorough() { 20 } else { 6 }, if tier.is_thorough() { 12 } else { 3 }, if tier.is_thorough() { 72 } else { 18 })
     }
     fn assumptions(&self) -> Vec<String> {
         vec![
